@@ -392,7 +392,7 @@ pub fn scenarios(thorough: bool) -> Vec<Scenario> {
         for g0 in 0..=1u64 {
             for g1 in 0..=g0 {
                 let p0 = programs(2, g0, &alpha_c);
-                let p1 = programs(2, g1, &alpha_c);
+                let p1 = programs(if thorough { 2 } else { 1 }, g1, &alpha_c);
                 for a in &p0 {
                     for b in &p1 {
                         if g0 == g1 && format!("{:?}", a) > format!("{:?}", b) {
